@@ -25,6 +25,7 @@ def run(ck):
         "feature; macro-expansion fixtures and the span lifecycle functions): every log emission is control-dependent on "
         "`!dispatch::has_been_set()` and the level tests, at most one per path; both install paths set EXISTS (C02.R5).")
     ck.assumptions += ["the `log` crate's max_level/logger semantics", "message text content is not decided"]
+    ck.rule("C18.R8", "the bridge's level tests use a correct total order (as C19.R1/R2/R4)", floor=60)
     ck.rule("C18.R1", "level conversion tables: inverse bijections preserving order", floor=22)
     ck.rule("C18.R2", "field keys agree between FIELD_NAMES, Fields::new and dispatch_record", floor=7)
     ck.rule("C18.R3", "bridge decision tables (LogTracer::enabled, dispatch_record)", floor=4)
@@ -34,6 +35,8 @@ def run(ck):
     ck.rule("C18.R6", "LogTracer builder options accumulate: no builder call discards an ignored prefix or the max level", floor=3)
     F = Facts("default")
     ck.configs.append("default")
+    from rules import C19
+    C19.order_rules(ck, F, "C18.R8")
     r6(ck, F)
     r7(ck, F)
     r5(ck, F)
